@@ -2,7 +2,7 @@
 # tools/harvest_seed.sh <PROP> <worktree> <n>  - confirm a sub-agent's seeded change and keep it under seeded/
 set -u
 P=$1; WT=$2; N=$3
-S=$WT/seed_out/$N
+S=$WT/seed_out/${4:-$N}
 D=/verif/seeded/$P-$N
 cd $WT || exit 2
 git checkout -q -- circuitpython_nrf24l01 2>/dev/null
